@@ -122,7 +122,7 @@ func checkArrayAlgebra(p *Program, r *Report, prop string) {
 	ord := map[string]int{}
 	nSinks := 0
 	for _, s := range ua.sinks {
-		base := FuncKey(s.fn) + ":" + s.field
+		base := FuncKey(s.fn) + ":" + s.field + s.ctx
 		ord[base]++
 		key := fmt.Sprintf("%s#%d", base, ord[base])
 		nSinks++
@@ -148,39 +148,33 @@ func checkArrayAlgebra(p *Program, r *Report, prop string) {
 				continue
 			}
 		}
-		type pairT struct{ off, od *ssa.Store }
-		var offs, ods []*ssa.Store
-		eachInstr(fn, func(_ *ssa.BasicBlock, _ int, ins ssa.Instruction) {
-			st, ok := ins.(*ssa.Store)
-			if !ok {
-				return
+		type pairT struct{ off, od *fieldStoreEv }
+		var offs, ods []*fieldStoreEv
+		for _, ev := range commonFieldStores(fn) {
+			ev := ev
+			if ev.field == "Offset" {
+				offs = append(offs, &ev)
 			}
-			fa, ok := st.Addr.(*ssa.FieldAddr)
-			if !ok || !isCommonStruct(fa.X.Type()) {
-				return
+			if ev.field == "OriginalDims" {
+				ods = append(ods, &ev)
 			}
-			name, _, _ := fieldName(fa)
-			if name == "Offset" {
-				offs = append(offs, st)
-			}
-			if name == "OriginalDims" {
-				ods = append(ods, st)
-			}
-		})
-		structOf := func(st *ssa.Store) ssa.Value {
-			_, base, _ := fieldName(st.Addr.(*ssa.FieldAddr))
-			return objOf(base)
+		}
+		structOf := func(ev *fieldStoreEv) ssa.Value {
+			return objOf(ev.base)
 		}
 		var order []*pairT
 		for _, o := range offs {
+			if o.setterOwn {
+				continue // a setter helper's own store: judged at each call of the helper
+			}
 			pt := &pairT{off: o}
 			for _, d := range ods {
 				if structOf(d) != structOf(o) {
 					continue
 				}
-				if d.Block() == o.Block() {
+				if d.at.Block() == o.at.Block() {
 					pt.od = d
-				} else if pt.od == nil && d.Block().Dominates(o.Block()) {
+				} else if pt.od == nil && d.at.Block().Dominates(o.at.Block()) {
 					pt.od = d
 				}
 			}
@@ -197,10 +191,13 @@ func checkArrayAlgebra(p *Program, r *Report, prop string) {
 			k++
 			key := fmt.Sprintf("%s:stride-shape#%d", FuncKey(fn), k)
 			if pt.od == nil {
-				r.Fail("R01.4", key, p.Pos(pt.off.Pos()), "a view is given allocation strides (Offset) but no OriginalDims")
+				r.Fail("R01.4", key, p.Pos(pt.off.at.Pos()), "a view is given allocation strides (Offset) but no OriginalDims")
 				continue
 			}
 			srcOf := func(v ssa.Value, field string) (kind string, src ssa.Value) {
+				if v == nil {
+					return "?", nil
+				}
 				for _, o := range origins(v) {
 					if o == nil {
 						return "?", nil
@@ -224,23 +221,23 @@ func checkArrayAlgebra(p *Program, r *Report, prop string) {
 				}
 				return "?", nil
 			}
-			ok1, so := srcOf(pt.off.Val, "Offset")
-			ok2, sd := srcOf(pt.od.Val, "OriginalDims")
+			ok1, so := srcOf(pt.off.val, "Offset")
+			ok2, sd := srcOf(pt.od.val, "OriginalDims")
 			switch {
 			case ok1 == "fresh":
 				if ok2 == "value" && sd == so || ok2 == "inherited" && false {
 					r.OK("R01.4", fmt.Sprintf("%s: Offset = Offsets(S), OriginalDims = S", FuncKey(fn)))
 				} else {
-					r.Fail("R01.4", key, p.Pos(pt.od.Pos()), "fresh row-major strides Offsets(S) are stored together with an OriginalDims that is not S: Contiguous() then compares the view's extents with the wrong allocation shape (false negatives, or an index out of range when the rank differs)")
+					r.Fail("R01.4", key, p.Pos(pt.od.at.Pos()), "fresh row-major strides Offsets(S) are stored together with an OriginalDims that is not S: Contiguous() then compares the view's extents with the wrong allocation shape (false negatives, or an index out of range when the rank differs)")
 				}
 			case ok1 == "inherited":
 				if ok2 == "inherited" && sd == so {
 					r.OK("R01.4", fmt.Sprintf("%s: Offset and OriginalDims inherited from the same view", FuncKey(fn)))
 				} else {
-					r.Fail("R01.4", key, p.Pos(pt.od.Pos()), "strides inherited from a parent view are stored with an OriginalDims from a different source")
+					r.Fail("R01.4", key, p.Pos(pt.od.at.Pos()), "strides inherited from a parent view are stored with an OriginalDims from a different source")
 				}
 			default:
-				r.Undecided("R01.4", key, p.Pos(pt.off.Pos()), "origin of the stored strides not recognised")
+				r.Undecided("R01.4", key, p.Pos(pt.off.at.Pos()), "origin of the stored strides not recognised")
 			}
 		}
 	}
@@ -257,6 +254,7 @@ func checkArrayAlgebra(p *Program, r *Report, prop string) {
 	}
 	checkNoDoubleStep(p, r, prop)
 	checkAccessorSiblings(p, r, only)
+	checkSeriesAxisSelectors(p, r, only)
 	r.Rule("R01.5", "views are live: a view object holds nothing but strides and the shared storage (no second element buffer), and what Unroll hands out is the storage itself or gathered in the same call, never a copy cached in the view")
 	// R01.2 / R01.3
 	ats := arrayTypes(p)
@@ -728,4 +726,340 @@ func checkAccessorSiblings(p *Program, r *Report, only func(*arrayType) bool) {
 		}
 	}
 	r.Floor("R01.7", "array types with 1-D accessors", n, 4)
+}
+
+// fieldStoreEv: a store to a field of a view's common struct: written out, or made by a setter helper
+// (`func (nd *Common) setStrides(offset, step, scale []int) { nd.Offset = offset; … }`) called on the struct, in
+// which case `at` is the call and val the argument that the helper stores (nil when the helper stores a computed value).
+type fieldStoreEv struct {
+	field     string
+	base      ssa.Value
+	val       ssa.Value
+	at        ssa.Instruction
+	setterOwn bool // the store is a setter helper's own store of one of its parameters into its receiver
+}
+
+// fieldSetter: fields of its receiver's common struct that the method assigns, mapped to the index of the parameter
+// whose value is stored (−1: a computed value).
+func fieldSetter(f *ssa.Function) map[string]int {
+	if f == nil || f.Signature.Recv() == nil || len(f.Params) == 0 || len(f.Blocks) == 0 {
+		return nil
+	}
+	if _, isPtr := f.Params[0].Type().Underlying().(*types.Pointer); !isPtr {
+		return nil
+	}
+	var out map[string]int
+	eachInstr(f, func(_ *ssa.BasicBlock, _ int, ins ssa.Instruction) {
+		st, ok := ins.(*ssa.Store)
+		if !ok {
+			return
+		}
+		fa, ok := st.Addr.(*ssa.FieldAddr)
+		if !ok || !isCommonStruct(fa.X.Type()) {
+			return
+		}
+		name, base, _ := fieldName(fa)
+		if objOf(base) != ssa.Value(f.Params[0]) {
+			return
+		}
+		idx := -1
+		if os := origins(st.Val); len(os) == 1 && os[0] != nil {
+			if prm, ok := stripConv(os[0]).(*ssa.Parameter); ok {
+				for i, q := range f.Params {
+					if q == prm && i > 0 {
+						idx = i
+					}
+				}
+			}
+		}
+		if out == nil {
+			out = map[string]int{}
+		}
+		if old, seen := out[name]; seen && old != idx {
+			idx = -1
+		}
+		out[name] = idx
+	})
+	return out
+}
+
+func commonFieldStores(fn *ssa.Function) []fieldStoreEv {
+	var out []fieldStoreEv
+	own := fieldSetter(fn)
+	eachInstr(fn, func(_ *ssa.BasicBlock, _ int, ins ssa.Instruction) {
+		switch x := ins.(type) {
+		case *ssa.Store:
+			fa, ok := x.Addr.(*ssa.FieldAddr)
+			if !ok || !isCommonStruct(fa.X.Type()) {
+				return
+			}
+			name, base, _ := fieldName(fa)
+			ev := fieldStoreEv{field: name, base: base, val: x.Val, at: x}
+			if idx, ok := own[name]; ok && idx > 0 && objOf(base) == ssa.Value(fn.Params[0]) {
+				ev.setterOwn = true
+			}
+			out = append(out, ev)
+		case ssa.CallInstruction:
+			c := x.Common()
+			f := c.StaticCallee()
+			if f == nil || !InModule(f) || c.IsInvoke() || len(c.Args) == 0 {
+				return
+			}
+			set := fieldSetter(f)
+			names := make([]string, 0, len(set))
+			for name := range set {
+				names = append(names, name)
+			}
+			sort.Strings(names)
+			for _, name := range names {
+				idx := set[name]
+				ev := fieldStoreEv{field: name, base: c.Args[0], at: x}
+				if idx > 0 && idx < len(c.Args) {
+					ev.val = c.Args[idx]
+				}
+				out = append(out, ev)
+			}
+		}
+	})
+	return out
+}
+
+// checkSeriesAxisSelectors (R01.8): the 1-D accessors treat an n-D view with one long axis as a series. Every
+// scan of the extents that picks "the axis that is longer than one" — to place the position (index1) or to name
+// the axis a run advances along — must pick the same axis when more than one qualifies: Get1/Set1 put the
+// position on one axis, and a run that advances along another writes elements the element accessors never address.
+func checkSeriesAxisSelectors(p *Program, r *Report, only func(*arrayType) bool) {
+	r.Rule("R01.8", "series-axis selectors agree: within an array type (its own methods and those of its common struct), every loop over the extents that tests Dims[i] > 1 and records the axis i selects the same axis (first or last one longer than one) — the axis the 1-D element accessors place the position on is the axis a 1-D run advances along")
+	type sel struct {
+		fn    *ssa.Function
+		pos   token.Pos
+		which string
+	}
+	selectorsIn := func(fn *ssa.Function) []sel {
+		var out []sel
+		if fn == nil || len(fn.Blocks) == 0 {
+			return nil
+		}
+		for _, l := range findLoops(fn) {
+			// the loop's own extent tests: If on Dims[i] > 1 (or 1 < Dims[i], Dims[i] >= 2, Dims[i] != 1)
+			for b := range l.Blocks {
+				iff, ok := b.Instrs[len(b.Instrs)-1].(*ssa.If)
+				if !ok {
+					continue
+				}
+				bo, ok := iff.Cond.(*ssa.BinOp)
+				if !ok {
+					continue
+				}
+				ext, lim, op := bo.X, bo.Y, bo.Op
+				if _, isC := constInt(ext); isC {
+					ext, lim = lim, ext
+					switch op {
+					case token.LSS:
+						op = token.GTR
+					case token.LEQ:
+						op = token.GEQ
+					case token.GTR:
+						op = token.LSS
+					case token.GEQ:
+						op = token.LEQ
+					}
+				}
+				c, isC := constInt(lim)
+				if !isC {
+					continue
+				}
+				matchSucc := -1
+				switch {
+				case op == token.GTR && c == 1, op == token.GEQ && c == 2, op == token.NEQ && c == 1:
+					matchSucc = 0
+				case op == token.LEQ && c == 1, op == token.LSS && c == 2, op == token.EQL && c == 1:
+					matchSucc = 1
+				}
+				if matchSucc < 0 {
+					continue
+				}
+				ld, ok := ext.(*ssa.UnOp)
+				if !ok || ld.Op != token.MUL {
+					continue
+				}
+				ia, ok := ld.X.(*ssa.IndexAddr)
+				if !ok {
+					continue
+				}
+				isDims := false
+				for _, o := range origins(ia.X) {
+					if o == nil {
+						continue
+					}
+					if nm, _, ok := loadedField(o); ok && nm == "Dims" {
+						isDims = true
+					}
+					if c, ok := o.(*ssa.Call); ok && callName(c.Common()) == "Shape" {
+						isDims = true
+					}
+				}
+				if !isDims {
+					continue
+				}
+				idx := ia.Index
+				// the region entered on a match: blocks of the loop reachable from the match successor without
+				// passing the header; does the scan go on afterwards?
+				match := b.Succs[matchSucc]
+				region := map[*ssa.BasicBlock]bool{}
+				goesOn := false
+				var walk func(x *ssa.BasicBlock)
+				walk = func(x *ssa.BasicBlock) {
+					if x == l.Header {
+						goesOn = true
+						return
+					}
+					if region[x] {
+						return
+					}
+					region[x] = true
+					if !l.Blocks[x] {
+						return
+					}
+					for _, s := range x.Succs {
+						walk(s)
+					}
+				}
+				walk(match)
+				// only the blocks that the match alone leads to (dominated by the match successor)
+				records := false
+				for _, ref := range refs(idx) {
+					rb := ref.Block()
+					if rb == nil || !region[rb] || !match.Dominates(rb) {
+						continue
+					}
+					switch x := ref.(type) {
+					case *ssa.IndexAddr:
+						if x.Index != idx {
+							continue
+						}
+						for _, r2 := range refs(x) {
+							if st, ok := r2.(*ssa.Store); ok && st.Addr == ssa.Value(x) {
+								records = true
+							}
+						}
+					case *ssa.Store:
+						if x.Val == idx {
+							records = true
+						}
+					case *ssa.Return:
+						records = true
+					case *ssa.Convert, *ssa.ChangeType:
+						records = true
+					}
+				}
+				// `axis = i` without a cell: a phi outside the region merging i on the edge from it
+				for _, ref := range refs(idx) {
+					if ph, ok := ref.(*ssa.Phi); ok && ph.Block() != l.Header {
+						for k, e := range ph.Edges {
+							if e == idx && k < len(ph.Block().Preds) && region[ph.Block().Preds[k]] {
+								records = true
+							}
+						}
+					} else if ok && ph.Block() == l.Header {
+						// carried round the loop as the selected axis (not the counter itself)
+						for k, e := range ph.Edges {
+							if e == idx && k < len(ph.Block().Preds) && l.Blocks[ph.Block().Preds[k]] && stripConv(idx) != ssa.Value(ph) {
+								if pi, isPhi := idx.(*ssa.Phi); !isPhi || pi != ph {
+									records = true
+								}
+							}
+						}
+					}
+				}
+				if !records {
+					continue
+				}
+				// direction of the scan
+				dir := ""
+				if ph, ok := idx.(*ssa.Phi); ok && ph.Block() == l.Header {
+					for k, e := range ph.Edges {
+						if k < len(ph.Block().Preds) && l.Blocks[ph.Block().Preds[k]] {
+							if st, ok := e.(*ssa.BinOp); ok {
+								if cc, isC := constInt(st.Y); isC && st.X == ssa.Value(ph) {
+									switch {
+									case st.Op == token.ADD && cc > 0, st.Op == token.SUB && cc < 0:
+										dir = "up"
+									case st.Op == token.SUB && cc > 0, st.Op == token.ADD && cc < 0:
+										dir = "down"
+									}
+								}
+							}
+						}
+					}
+				}
+				if dir == "" {
+					continue
+				}
+				which := "the last axis longer than one"
+				if (dir == "up") != goesOn {
+					which = "the first axis longer than one"
+				}
+				out = append(out, sel{fn, iff.Cond.Pos(), which})
+			}
+		}
+		sort.Slice(out, func(i, j int) bool { return out[i].pos < out[j].pos })
+		return out
+	}
+	n := 0
+	for _, at := range arrayTypes(p) {
+		if !only(at) {
+			continue
+		}
+		tname := at.rel + "." + at.named.Obj().Name()
+		var names []string
+		for nm := range at.method {
+			names = append(names, nm)
+		}
+		sort.Strings(names)
+		var sels []sel
+		for _, nm := range names {
+			f := at.method[nm]
+			if f.Synthetic != "" {
+				// promoted from the common struct: analyse the declared method
+				if o := f.Object(); o != nil {
+					if d := p.SSA.FuncValue(o.(*types.Func)); d != nil && d != f {
+						f = d
+					}
+				}
+			}
+			sels = append(sels, selectorsIn(f)...)
+		}
+		if len(sels) == 0 {
+			continue
+		}
+		n++
+		// the reference: the helper the element accessors share (the selector reached from Get1), else the first
+		ref := sels[0]
+		if g := at.own("Get1"); g != nil {
+			for _, c := range callsIn(g) {
+				if f := c.Common().StaticCallee(); f != nil {
+					for _, s := range sels {
+						if s.fn == f {
+							ref = s
+						}
+					}
+				}
+			}
+			for _, s := range sels {
+				if s.fn == g {
+					ref = s
+				}
+			}
+		}
+		for k, s := range sels {
+			key := fmt.Sprintf("%s:axis-selector:%s#%d", tname, s.fn.Name(), k)
+			if s.which == ref.which {
+				r.OK("R01.8", fmt.Sprintf("%s: %s selects %s", tname, s.fn.Name(), s.which))
+			} else {
+				r.Fail("R01.8", key, p.Pos(s.pos), fmt.Sprintf("%s selects %s, but %s (the element accessors' addressing) selects %s: on a view with two axes longer than one a run advances along an axis the element accessors never address, and leaves the view", s.fn.Name(), s.which, ref.fn.Name(), ref.which))
+			}
+		}
+	}
+	r.Floor("R01.8", "array types with a series-axis selector", n, 4)
 }
